@@ -161,7 +161,7 @@ def execute(ctx, case):
     path = os.path.join(b.conf_dir, 'aggregation-rules.conf')
     with open(path, 'w') as f:
       f.write('# generated\n\n' + '\n'.join(aggpat.render(r, s) for r, s in zip(case['rules'], case['styles'])) + '\n')
-    os.utime(path, (2000000000, 2000000000))
+    os.utime(path, (1500000000, 1500000000))
     RM = b.rules.RuleManager
     RM.rules_file = path
     RM.rules_last_read = 0.0
